@@ -148,7 +148,8 @@ impl<'a> B<'a> {
                     let rn = *self.r.pick(&["_sd", "..."]);
                     json!([salt, rn, v])
                 } else if !m.is_empty() && self.dev("name-collides-visible") {
-                    let ek = m.keys().next().unwrap().clone();
+                    let ks: Vec<String> = m.keys().cloned().collect();
+                    let ek = self.r.pick(&ks).clone();
                     json!([salt, ek, v])
                 } else if !disclosed_names.is_empty() && self.dev("name-collides-disclosed") {
                     let ek = disclosed_names[0].clone();
@@ -191,7 +192,19 @@ impl<'a> B<'a> {
         }
         if !sd.is_empty() || self.r.chance(5) {
             self.r.shuffle(&mut sd);
-            m.insert("_sd".into(), Value::Array(sd));
+            // member order is preserved by the library's JSON maps: put `_sd` at a random position
+            let at = self.r.usize(m.len() + 1);
+            let mut re = Map::new();
+            for (i, (k, v)) in std::mem::take(&mut m).into_iter().enumerate() {
+                if i == at {
+                    re.insert("_sd".into(), Value::Array(std::mem::take(&mut sd)));
+                }
+                re.insert(k, v);
+            }
+            if !re.contains_key("_sd") {
+                re.insert("_sd".into(), Value::Array(sd));
+            }
+            m = re;
         } else if self.dev("sd-nonarray") {
             let e = self.r.pick(&[json!("str"), json!(5), json!({"a": "b"}), json!(null)]).clone();
             m.insert("_sd".into(), e);
